@@ -479,6 +479,9 @@ where
     )
 }
 
+#[cfg(all(test, feature = "verif"))]
+mod verif;
+
 #[cfg(test)]
 mod tests {
     use astria_core::{
